@@ -318,7 +318,7 @@ RunChain(x, names) ==
     [] a = "NoOpAction" -> Out(x, "NoOp")
     [] a = "NoOpDoneAction" -> Out(StopSender(x), "Event_Done")
     [] a = "CancelAction" -> Out(x, "Event_Done")
-    [] OTHER -> [x EXCEPT !.crashed = TRUE, !.res = "spec-drift-unknown-action:" \o a]
+    [] OTHER -> Fail(Viol(x, {V("XX", "spec-drift|unknown-action|" \o a, FALSE)}))   \* the code's tables name an Action this model does not know
 
 (* ----------------------------------------------------- FSM engine (fsm.go) -- *)
 RECURSIVE Loop(_, _, _)
@@ -550,7 +550,7 @@ Plans(ww) ==
   \cup (IF ww.b.crashes < cf.crashes THEN {[f |-> None, c |-> [n |-> n, g |-> p[1], occ |-> k, w |-> p[2]]] : n \in {"A", "B"}, p \in CrashMenu, k \in 1..4} ELSE {})
 \* a plan that is never reached is not a behaviour of its own
 PlanHit(pl, e) ==
-  (pl.f = None \/ Get(e.hit, <<pl.f.n, pl.f.g>>, 0) >= 1) /\ (pl.c = None \/ e.crashedNow)
+  (IF pl.f = None THEN TRUE ELSE Get(e.hit, <<pl.f.n, pl.f.g>>, 0) >= 1) /\ (IF pl.c = None THEN TRUE ELSE e.crashedNow)
 
 BaseSteps(ww) ==
   (IF ww.b.steps = 0 THEN {[S0("init") EXCEPT !.n = cf.init, !.typ = cf.typ]} ELSE
@@ -573,7 +573,7 @@ Init == /\ cf \in CONFIGS /\ w = [WInit EXCEPT !.tip = IF cf.chain = "btc" THEN 
 DoStep ==
   /\ w.closed = "" /\ w.b.steps < cf.maxsteps
   /\ \E base \in BaseSteps(w), pl \in Plans(w) :
-       /\ (pl.f # None \/ pl.c # None) => base.a \in {"init", "deliver", "dup", "block", "tick", "restart", "htlc"}
+       /\ IF pl.f = None /\ pl.c = None THEN TRUE ELSE base.a \in {"init", "deliver", "dup", "block", "tick", "restart", "htlc"}
        /\ LET st == [base EXCEPT !.f = pl.f, !.c = pl.c]
               e == StepHit(w, st)
           IN /\ PlanHit(pl, e)
